@@ -175,6 +175,26 @@ func (C11) Generate(c *Ctx, r *Rand, index int) *Scenario {
 		sc.WatchdogS = 3
 		sc.Meta["special"] = "lua-nonterminating-program"
 	}
+	if (fi.Name == "yaml" || fi.Name == "props") && sc.MetaString("special") == "" && sc.MetaString("input") == "" && rs.Chance(1, 60) {
+		// values that mention each other in the ${..} notation of properties files: data, not templates
+		n := rs.Range(20, 34)
+		var b strings.Builder
+		sep := ": "
+		q := "\""
+		if fi.Name == "props" {
+			sep, q = " = ", ""
+		}
+		b.WriteString("a0" + sep + q + "xxxxxxxxxx" + q + "\n")
+		for i := 1; i < n; i++ {
+			b.WriteString(fmt.Sprintf("a%d%s%s${a%d}${a%d}%s\n", i, sep, q, i-1, i-1, q))
+		}
+		if rs.Chance(1, 3) {
+			b.WriteString("c1" + sep + q + "${c2}" + q + "\nc2" + sep + q + "${c1}" + q + "\n")
+		}
+		text = b.String()
+		sc.Meta["input"] = "reference-chain"
+		sc.Meta["refchain"] = true
+	}
 	if fi.Name == "lua" && sc.MetaString("special") == "" && rs.Chance(1, 30) {
 		// legal Lua whose result is not a tree: tables that contain themselves, shared tables
 		text = Pick(rs, []string{"t = {}; t.a = t; return t\n", "t = {}\nt.a = t\n", "local a = {}\nlocal b = {a}\na[1] = b\nreturn {x = a}\n",
@@ -210,7 +230,7 @@ func (C11) Generate(c *Ctx, r *Rand, index int) *Scenario {
 	data := []byte(text)
 	rd := r.Fork("damage")
 	nDamage := rd.Weighted([]int{25, 50, 18, 7})
-	if sc.MetaString("special") != "" || sc.MetaBool("deep") {
+	if sc.MetaString("special") != "" || sc.MetaBool("deep") || sc.MetaBool("refchain") {
 		nDamage = 0
 	}
 	var ds []damage
@@ -229,7 +249,9 @@ func (C11) Generate(c *Ctx, r *Rand, index int) *Scenario {
 
 	// expression
 	var expr string
-	if sc.MetaBool("deep") && rs.Chance(2, 3) {
+	if sc.MetaBool("refchain") {
+		expr = Pick(rs, []string{".", ". | to_props", "@props", ".. | select(tag == \"!!str\") | @props", "to_props | from_props", "to_entries | from_entries", "[.[]] | @csv"})
+	} else if sc.MetaBool("deep") && rs.Chance(2, 3) {
 		expr = Pick(rs, []string{".a - .b", ".a == .b", ".a + .b", "[.c] - [.c]", ".c == .c", ".a | unique", "[.c, .c] | unique", ".a | contains(.b)", ".c * .c", "[.c, .c] | sort", ".. | length", "[..] | length", ".a | group_by(.)", ".c | to_json | from_json", "explode(.)", ".c | path(..)", "del(..)", ".c |= .", ".. style=\"flow\"", "to_entries", ".a - .a"})
 	} else {
 		switch rs.Weighted([]int{30, 40, 10, 20, 12}) {
@@ -253,6 +275,9 @@ func (C11) Generate(c *Ctx, r *Rand, index int) *Scenario {
 		}
 	}
 	outFmt := Pick(rs, append([]string{"yaml", "json", "auto"}, OutputFormats...))
+	if sc.MetaBool("refchain") && rs.Chance(1, 2) {
+		outFmt = "props"
+	}
 	var argv []string
 	if rs.Chance(1, 4) {
 		argv = append(argv, "ea")
